@@ -322,8 +322,21 @@ type Options struct {
 
 // encodeUnit builds all obligations of root.
 func encodeUnit(p *Program, db *ContractDB, root *ssa.Function) (res *UnitResult) {
+	return encodeUnitMode(p, db, root, false)
+}
+
+// encodeUnitMode: with safetyOnly the functional contracts (requires, ensures, loop invariants, call-site assertions)
+// of the root and of every function inlined into it are ignored: only the implicit obligations (index, slice, nil,
+// conversion, map, division, make, explicit panic) are generated, for arbitrary well-typed inputs. Type invariants
+// ("valid") and the contracts of contract-mode callees still apply. Used where hostile input lies outside the
+// domain a functional contract assumes.
+func encodeUnitMode(p *Program, db *ContractDB, root *ssa.Function, safetyOnly bool) (res *UnitResult) {
 	t0 := time.Now()
 	u := newUnit(p, db, root)
+	if safetyOnly {
+		u.safetyOnly = true
+		u.rootKey += "!safety"
+	}
 	res = &UnitResult{Key: u.rootKey, unit: u}
 	defer func() {
 		res.EncodeSec = time.Since(t0).Seconds()
@@ -356,7 +369,7 @@ func encodeUnit(p *Program, db *ContractDB, root *ssa.Function) (res *UnitResult
 		v := u.havocVal("free."+fv.Name(), fv.Type(), st.mem, "true")
 		f.free = append(f.free, v)
 	}
-	ct := db.forFunc(u.rootKey)
+	ct := u.ctFor(u.rootKey)
 	entry := &state{reach: "true", mem: st.mem.clone()}
 	for i, prm := range root.Params {
 		if t := u.validTerm(prm.Type(), f.params[i], entry, i == 0 && root.Signature.Recv() != nil); t != "true" {
@@ -379,7 +392,18 @@ func encodeUnit(p *Program, db *ContractDB, root *ssa.Function) (res *UnitResult
 		u.assumeLemmas(root, ct, f.params, entry)
 	}
 	u.reqMark = u.ctx.mark()
+	// vacuity guards: the preconditions are satisfiable, and every return statement is reachable under the
+	// assumptions accumulated up to it. A cover is *refuted* by "unsat" (nothing is assumed from it afterwards).
+	u.obls = append(u.obls, &Obligation{Name: u.rootKey + "/cover:entry", Kind: "cover", Label: "entry", Root: u.rootKey, Guard: "true", Cond: "false", Mark: u.ctx.mark(), Blk: -1})
 	ret, results := f.run(st)
+	for ri, r := range f.rets {
+		o := &Obligation{Name: fmt.Sprintf("%s/cover:ret%d", u.rootKey, ri+1), Kind: "cover", Label: fmt.Sprintf("ret%d", ri+1), Root: u.rootKey, Guard: "true", Cond: not(r.reach), Mark: u.ctx.mark(), Blk: r.blk}
+		if r.pos.IsValid() {
+			p := u.prog.Fset.Position(r.pos)
+			o.Pos = fmt.Sprintf("%s:%d", strings.TrimPrefix(p.Filename, u.prog.Repo+"/"), p.Line)
+		}
+		u.obls = append(u.obls, o)
+	}
 	if ct != nil {
 		u.ctx.curBlk = -1
 		// one obligation per clause and per return statement (smaller queries, precise diagnostics)
@@ -776,7 +800,7 @@ func isSpecFactTag(tag string) bool {
 // Everything else is kept. Returns "" when nothing would be hidden. Hiding assumptions is sound for a proof attempt.
 func (u *Unit) scriptFocused(o *Obligation) string {
 	keep := map[string]bool{labelBase(o.Label): true}
-	if ct := u.db.forFunc(u.rootKey); ct != nil {
+	if ct := u.ctFor(u.rootKey); ct != nil {
 		for _, n := range ct.Focus[labelBase(o.Label)] {
 			keep[n] = true
 		}
@@ -833,6 +857,30 @@ func solveUnit(res *UnitResult, opt Options) {
 			defer wg.Done()
 			defer func() { <-sem }()
 			script := u.script(o)
+			if o.Kind == "cover" {
+				// "unsat" = unreachable / contradictory assumptions; anything else is fine
+				r := solveQuick(script, opt.Timeout)
+				if r.Verdict == "unknown" {
+					qt := 3 * time.Second
+					if opt.Timeout < qt {
+						qt = opt.Timeout
+					}
+					r = solve(script, nil, qt, 1)
+				}
+				switch r.Verdict {
+				case "unsat":
+					r.Verdict = "vacuous"
+				case "sat":
+					r.Verdict = "unsat" // the guard did its job: reported as discharged
+					r.Solver += " (reachable)"
+				default:
+					r.Verdict = "unsat"
+					r.Solver = "undecided reachability (not refuted)"
+				}
+				r.Model = nil
+				o.Res = r
+				return
+			}
 			// Proof search, cheapest first. Every variant after the first only weakens the assumptions (ground
 			// instances and bridge lemmas are consequences; hiding quantified facts and replacing bv2nat/int2bv by
 			// uninterpreted functions lose information), so "unsat" of a variant is a proof of the obligation; "sat" of
@@ -874,9 +922,15 @@ func solveUnit(res *UnitResult, opt Options) {
 				} else {
 					spent += r0.Seconds
 					var fs string
-					done = try(ginstScriptOpt(script, true, true), " +ground-instances/uf", true)
+					done = try(ginstScriptLevel(script, true, true, 0), " +ground-instances/uf/light", true)
 					if !done {
 						fs = u.scriptFocused(o)
+						done = fs != "" && try(ginstScriptLevel(fs, true, true, 0), " +focused+ground-instances/uf/light", true)
+					}
+					if !done {
+						done = try(ginstScriptOpt(script, true, true), " +ground-instances/uf", true)
+					}
+					if !done {
 						done = fs != "" && try(ginstScriptOpt(fs, true, true), " +focused+ground-instances/uf", true)
 					}
 				}
@@ -1032,4 +1086,26 @@ func encodeLemma(p *Program, db *ContractDB, key string) *UnitResult {
 	res.Obls = u.obls
 	res.SpecErrors = u.specErrors
 	return res
+}
+
+// ctFor returns the contract that applies to a function verified as root or inlined in this unit.
+func (u *Unit) ctFor(key string) *FuncContract {
+	key = strings.TrimSuffix(key, "!safety")
+	ct := u.db.forFunc(key)
+	if u.safetyOnly && ct != nil && ct.Mode != "contract" && ct.Mode != "trusted" {
+		// the root keeps the input-validity preconditions labelled for the no-panic property ("C10." / "safe.")
+		if key == strings.TrimSuffix(u.rootKey, "!safety") {
+			var keep []Clause
+			for _, c := range ct.Requires {
+				if strings.HasPrefix(c.Label, "C10.") || strings.HasPrefix(c.Label, "safe.") {
+					keep = append(keep, c)
+				}
+			}
+			if len(keep) > 0 {
+				return &FuncContract{Key: ct.Key, Pkg: ct.Pkg, Mode: ct.Mode, Requires: keep, File: ct.File, Line: ct.Line}
+			}
+		}
+		return nil
+	}
+	return ct
 }
